@@ -228,7 +228,15 @@ def symlink_variant(root, real, main):
 def retry_after_missing(root, real, main, want):
     """a load that fails because a nested include is missing leaves nothing behind: once the file is
     there, the same load gives the program"""
-    cands = [rel for rel, c in real.items() if rel != main and "include " not in c]
+    # a file that is included from an included file (the failure then happens while that file is walked)
+    import re as _re
+    nested = set()
+    for rel0, c in real.items():
+        if rel0 != main:
+            nested |= {os.path.basename(x) for x in _re.findall(r'include "([^"]+)"', c)}
+    cands = [rel for rel in real if rel != main and os.path.basename(rel) in nested]
+    if not cands:
+        cands = [rel for rel, c in real.items() if rel != main and "include " not in c]
     if not cands:
         return None
     rel = sorted(cands)[-1]
